@@ -69,5 +69,56 @@ theorem step_children' {s s' : State} {e : Event} (hs : step s e = .ok s') (p c 
     · simp [NoteRec.blank] at hc
     · exact hc
 
+/-! ### Notes on a creation-time path are published; a note being created has no children -/
+
+/-- Every note on the creation-time path of `n`, other than `n` itself, has been returned by
+    `nsync_note_new` (it was passed as the `parent` argument of a later `nsync_note_new`). -/
+def InvG (s : State) : Prop :=
+  ∀ n a, a ∈ s.ancEver n → a ≠ n → s.published a = true
+
+theorem InvG.init : InvG Note.init := by
+  intro n a ha; simp [Note.init] at ha
+
+theorem step_invG {s s' : State} {e : Event} (hX : InvX s) (hG : InvG s)
+    (hs : step s e = .ok s') : InvG s' := by
+  intro n a ha hne
+  have hst := step_stable hs
+  rcases step_ghost hs n with ⟨h, _, _⟩ | ⟨h0, h1⟩
+  · rw [h] at ha; exact hst.published a (hG n a ha hne)
+  · rcases step_alloc hs n h1 with h | ⟨t, par, dl, _, hpc, _, _, _, han, _⟩
+    · simp [h0] at h
+    · rw [han] at ha
+      rcases List.mem_cons.mp ha with ha | ha
+      · exact absurd ha hne
+      · cases par with
+        | none => simp [State.ancOf] at ha
+        | some p =>
+          simp only [State.ancOf] at ha
+          have hc := hX.claim t
+          rw [hpc] at hc
+          by_cases hap : a = p
+          · subst hap; exact hst.published a (hc a rfl).1
+          · exact hst.published a (hG p a ha hap)
+
+theorem Reachable.invG {s : State} (h : Reachable s) : InvG s := by
+  refine Reachable.induction (P := InvG) InvG.init ?_ s h
+  intro s e s' hr hG hs
+  exact step_invG hr.inv6.2.2.2.1 hG hs
+
+/-- A note with children has been returned by `nsync_note_new`. -/
+theorem Reachable.children_published {s : State} (hr : Reachable s) {p c : NoteId}
+    (h : c ∈ (s.notes p).children) : s.published p = true := by
+  obtain ⟨_, _, hS, _, hL, _⟩ := hr.inv6
+  exact hr.invG c p (hS.children p c h).1 (hL.children p c h)
+
+/-- A note that is still being created has no children. -/
+theorem Reachable.creating_no_children {s : State} (hr : Reachable s) {t : Tid} {n : NoteId}
+    (hc : (s.pc t).creating = some n) : (s.notes n).children = [] := by
+  cases h : (s.notes n).children with
+  | nil => rfl
+  | cons c cs =>
+    have := hr.children_published (p := n) (c := c) (by rw [h]; simp)
+    rw [(hr.inv6.1.creating t n hc).2] at this
+    cases this
 
 end Note
